@@ -100,13 +100,40 @@ func (c *collector) execBuilder(origin string, pre2 bool, calls []string, gc *ge
 	c.add(r, "")
 }
 
-// program: one Builder used for several streams.  mode "reset": Reset
-// between the streams, each harvested; mode "build": every stream through
-// Builder.Build (which resets, runs the calls, and insists on Close).
+// program: one Builder used for several streams.
+//
+//	mode "reset":   Reset between the streams, each harvested
+//	mode "build":   every stream through Builder.Build (which resets, runs the
+//	                calls, and insists on Close)
+//	mode "harvest": ONE stream handed out in several segments: Harvest after
+//	                each group of calls, the graphics state continues; the
+//	                judged stream is the concatenation of the segments
+//
+// deferred: the segments handed out are kept and only serialised after the
+// Builder has finished all its streams (a segment must stay what it was when
+// the Builder goes on); otherwise each is serialised as soon as it exists.
 type program struct {
-	pre2    bool
-	mode    string
-	streams [][]string
+	pre2     bool
+	mode     string
+	deferred bool
+	streams  [][]string
+}
+
+// pending is a stream whose segments have been handed out by the Builder
+// but not yet (all) looked at.
+type pending struct {
+	r       *record
+	segs    []*content.Operators
+	data    [][]byte // serialisations made so far (eager order)
+	closing []content.OpName
+	version pdf.Version
+}
+
+func serialise(ops *content.Operators) []byte {
+	rc, _ := ops.RawBytes()
+	data, _ := io.ReadAll(rc)
+	rc.Close()
+	return data
 }
 
 // execProgram runs the streams of a program on ONE Builder; every stream is
@@ -117,24 +144,78 @@ func (c *collector) execProgram(origin string, p program) {
 		version = pdf.V1_7
 	}
 	b := builder.New(content.Page, nil, version)
-	for k, calls := range p.streams {
-		if k > 0 || p.mode == "build" {
+	org := origin + "/" + p.mode
+	if p.deferred {
+		org += "/kept"
+	}
+	var all []*pending
+	if p.mode == "harvest" {
+		all = append(all, c.startSegments(b, version, org, p))
+	} else {
+		for _, calls := range p.streams {
 			if p.mode == "reset" || b.Err != nil {
 				b.Reset() // Build itself does nothing after an error
 			}
+			pd := c.start(b, version, org, p.pre2, calls, p.mode == "build")
+			if !p.deferred {
+				for _, seg := range pd.segs {
+					pd.data = append(pd.data, serialise(seg))
+				}
+			}
+			all = append(all, pd)
 		}
-		r := c.observe(b, version, origin+"/"+p.mode, p.pre2, calls, p.mode == "build")
+	}
+	// the Builder has finished; now look at everything it handed out
+	for k, pd := range all {
+		c.finish(pd)
 		pp := p
-		r.prog, r.stream = &pp, k
-		c.add(r, "")
+		pd.r.prog, pd.r.stream = &pp, k
+		c.add(pd.r, "")
 	}
 }
 
-// observe performs calls on b and records what the Builder did: the call
-// after which Err was set, Close, ClosingOperators, the harvested stream
-// re-read from its bytes, and that stream fed to a State of the same version.
-func (c *collector) observe(b *builder.Builder, version pdf.Version, origin string, pre2 bool, calls []string, useBuild bool) *record {
+// startSegments: one stream, harvested in segments.
+func (c *collector) startSegments(b *builder.Builder, version pdf.Version, origin string, p program) *pending {
+	r := &record{Kind: "builder", Origin: origin, Pre2: p.pre2, pair: pairSeq.Add(1), SegLens: []int{}}
+	pd := &pending{r: r, version: version}
+	n := 0
+segments:
+	for _, calls := range p.streams {
+		for _, call := range calls {
+			apply(b, call, n)
+			n++
+			r.Calls = append(r.Calls, call)
+			if b.Err != nil {
+				r.ErrAt = n
+				r.errText = b.Err.Error()
+				break segments
+			}
+		}
+		seg, err := b.Harvest()
+		if err != nil {
+			r.errText = "Harvest: " + err.Error()
+			r.ApplyErr = -1
+			break
+		}
+		r.SegLens = append(r.SegLens, len(calls))
+		pd.segs = append(pd.segs, seg)
+		if !p.deferred {
+			pd.data = append(pd.data, serialise(seg))
+		}
+	}
+	if r.ErrAt == 0 {
+		r.CloseOK = b.Close() == nil
+		pd.closing = b.State.ClosingOperators()
+	}
+	return pd
+}
+
+// execBuilder's and execProgram's first half: perform calls on b and record
+// what the Builder did: the call after which Err was set, Close,
+// ClosingOperators, and the stream it hands out.
+func (c *collector) start(b *builder.Builder, version pdf.Version, origin string, pre2 bool, calls []string, useBuild bool) *pending {
 	r := &record{Kind: "builder", Origin: origin, Pre2: pre2, pair: pairSeq.Add(1)}
+	pd := &pending{r: r, version: version}
 	run := func(b *builder.Builder) error {
 		for i, call := range calls {
 			apply(b, call, i)
@@ -148,7 +229,6 @@ func (c *collector) observe(b *builder.Builder, version pdf.Version, origin stri
 		return nil
 	}
 	var ops *content.Operators
-	var closing []content.OpName
 	if useBuild {
 		ops = b.Build(run)
 		if ops == nil && r.ErrAt == 0 {
@@ -160,13 +240,13 @@ func (c *collector) observe(b *builder.Builder, version pdf.Version, origin stri
 		}
 		if ops != nil {
 			r.CloseOK = true
-			closing = b.State.ClosingOperators()
+			pd.closing = b.State.ClosingOperators()
 		}
 	} else {
 		run(b)
 		if r.ErrAt == 0 {
 			r.CloseOK = b.Close() == nil
-			closing = b.State.ClosingOperators()
+			pd.closing = b.State.ClosingOperators()
 			var herr error
 			ops, herr = b.Harvest()
 			if herr != nil {
@@ -176,29 +256,48 @@ func (c *collector) observe(b *builder.Builder, version pdf.Version, origin stri
 			}
 		}
 	}
+	if ops != nil {
+		pd.segs = []*content.Operators{ops}
+		r.SegLens = []int{len(calls)}
+	}
+	return pd
+}
+
+// finish: the segments handed out are serialised (unless they were already),
+// re-read from their bytes, and fed in order to a State of the same version.
+func (c *collector) finish(pd *pending) {
+	r := pd.r
 	c.ctx.Ev.Eval(1)
 	c.ctx.Ev.Distinct("b:" + strings.Join(r.Calls, "."))
-	if r.ErrAt == 0 && ops != nil {
-		r.Closing = opNames(closing)
-		rc, _ := ops.RawBytes()
-		data, _ := io.ReadAll(rc)
-		rc.Close()
-		// re-read the stream that was written
-		it := content.NewScanner(func() (io.ReadCloser, error) { return io.NopCloser(bytes.NewReader(data)), nil }).NewIter()
+	if r.ErrAt == 0 && r.ApplyErr == 0 && len(pd.segs) > 0 {
+		r.Closing = opNames(pd.closing)
+		r.RereadLens = []int{}
 		st := content.NewState(content.Page, &content.Resources{})
-		st.Version = version
+		st.Version = pd.version
 		n := 0
-		for name, args := range it.All() {
-			n++
-			r.Reread = append(r.Reread, string(name))
-			if r.ApplyErr == 0 {
-				if err := st.ApplyOperator(name, args); err != nil {
-					r.ApplyErr = n
-					r.errText = err.Error()
+		for k, seg := range pd.segs {
+			var data []byte
+			if k < len(pd.data) {
+				data = pd.data[k]
+			} else {
+				data = serialise(seg)
+			}
+			it := content.NewScanner(func() (io.ReadCloser, error) { return io.NopCloser(bytes.NewReader(data)), nil }).NewIter()
+			m := 0
+			for name, args := range it.All() {
+				n++
+				m++
+				r.Reread = append(r.Reread, string(name))
+				if r.ApplyErr == 0 {
+					if err := st.ApplyOperator(name, args); err != nil {
+						r.ApplyErr = n
+						r.errText = err.Error()
+					}
 				}
 			}
+			r.RereadLens = append(r.RereadLens, m)
 		}
-		for _, name := range closing {
+		for _, name := range pd.closing {
 			n++
 			if r.ApplyErr == 0 {
 				if err := st.ApplyOperator(name, nil); err != nil {
@@ -217,5 +316,11 @@ func (c *collector) observe(b *builder.Builder, version pdf.Version, origin stri
 	if r.ErrAt == 0 {
 		c.ctx.Ev.Add("builder_runs_accepted", 1)
 	}
-	return r
+}
+
+// observe = start + finish.
+func (c *collector) observe(b *builder.Builder, version pdf.Version, origin string, pre2 bool, calls []string, useBuild bool) *record {
+	pd := c.start(b, version, origin, pre2, calls, useBuild)
+	c.finish(pd)
+	return pd.r
 }
